@@ -149,7 +149,11 @@ def beginStop (w0 : W) (j : Judge) (a : Nat) : Judge :=
   { j with stopRuns := j.stopRuns ++ [a], givenUp := j.givenUp.filter (fun q => (pc w0 q).app != a), stopSet := j.stopSet ++ activeOf w0 a,
            wasStopping := j.wasStopping ++ (activeOf w0 a).filter (fun q => (pr w0 q).state == .stopping),
            -- a stop the monitor was not told about (the STOP starting failure strategy) may still be going on: its requests are outstanding
-           overlap := if (busy && j.stopRuns.contains a) || j.stops.any (fun r => (pc w0 r.1).app == a) then j.overlap ++ [a] else j.overlap }
+           -- ... or have been dropped with a lost instance while its job goes on: the Stopper of the world (in lock-step with the real one)
+           -- still holds a job for the application
+           overlap := if (busy && j.stopRuns.contains a) || j.stops.any (fun r => (pc w0 r.1).app == a)
+                         || w0.scurrent.any (·.app == a) || w0.splanned.any (fun kjs => kjs.2.any (·.app == a))
+                      then j.overlap ++ [a] else j.overlap }
 
 /-- fold the monitor over one operation: `w0` world before, `w1` world after, `reqs` what the implementation emitted -/
 def judgeOp (w0 w1 : W) (j : Judge) (rest : List String) (reqs : List Req) (starting stopping : Bool) (implObs : String) : Judge × List String :=
